@@ -428,6 +428,8 @@ ERROR_CASES = {
         ('    mut q: int = 7\n    q //= d\n    println(q)\n', ZDE), ('    println(int(7 / d))\n', ZDE),
         ('    println(it.qty % d)\n', ZDE), ('    println(x // d)\n', ZDE), ('    mut w: float = 1.5\n    w %= z\n    println(w)\n', ZDE),
         ('    println(half(7) % (d * 3))\n', ZDE),
+        # the ring-buffer idiom on an EMPTY list: the divisor len(e) is zero
+        ('    e: List[int] = xs[3:]\n    println(e[i % len(e)])\n', ZDE),
     ],
     'C05': [
         ('    println(xs[i])\n', 'IndexError: index 7 out of range for list of length 3'),
